@@ -45,24 +45,24 @@ def catalog(env, tier):
         add("r3c3m1", lambda: E.Minesweeper(G(num_rows=3, num_cols=3, num_mines=1)), 10)
     elif env == "rubiks_cube":
         from jumanji.environments.logic.rubiks_cube.generator import ScramblingGenerator as G
-        add("default", lambda: E.RubiksCube(time_limit=12), 16, time_limit=12)
-        add("n2t3", lambda: E.RubiksCube(generator=G(cube_size=2, num_scrambles_on_reset=3), time_limit=3), 6, time_limit=3)
-        add("n4t7", lambda: E.RubiksCube(generator=G(cube_size=4, num_scrambles_on_reset=5), time_limit=7), 10, time_limit=7)
-        add("n3t1", lambda: E.RubiksCube(generator=G(cube_size=3, num_scrambles_on_reset=1), time_limit=1), 4, time_limit=1)
+        add("default", lambda: E.RubiksCube(time_limit=12), 16, time_limit=12, mk=lambda t: E.RubiksCube(time_limit=t))
+        add("n2t3", lambda: E.RubiksCube(generator=G(cube_size=2, num_scrambles_on_reset=3), time_limit=3), 6, time_limit=3, mk=lambda t: E.RubiksCube(generator=G(cube_size=2, num_scrambles_on_reset=3), time_limit=t))
+        add("n4t7", lambda: E.RubiksCube(generator=G(cube_size=4, num_scrambles_on_reset=5), time_limit=7), 10, time_limit=7, mk=lambda t: E.RubiksCube(generator=G(cube_size=4, num_scrambles_on_reset=5), time_limit=t))
+        add("n3t1", lambda: E.RubiksCube(generator=G(cube_size=3, num_scrambles_on_reset=1), time_limit=1), 4, time_limit=1, mk=lambda t: E.RubiksCube(generator=G(cube_size=3, num_scrambles_on_reset=1), time_limit=t))
         if not q:
-            add("n5t2", lambda: E.RubiksCube(generator=G(cube_size=5, num_scrambles_on_reset=9), time_limit=2), 5, time_limit=2)
-            add("n3t200", lambda: E.RubiksCube(), 205, time_limit=200)
+            add("n5t2", lambda: E.RubiksCube(generator=G(cube_size=5, num_scrambles_on_reset=9), time_limit=2), 5, time_limit=2, mk=lambda t: E.RubiksCube(generator=G(cube_size=5, num_scrambles_on_reset=9), time_limit=t))
+            add("n3t200", lambda: E.RubiksCube(), 205, time_limit=200, mk=lambda t: E.RubiksCube(time_limit=t))
     elif env == "sliding_tile_puzzle":
         from jumanji.environments.logic.sliding_tile_puzzle.generator import RandomWalkGenerator as G
         from jumanji.environments.logic.sliding_tile_puzzle import reward as R
-        add("default-t7", lambda: E.SlidingTilePuzzle(time_limit=7), 10, time_limit=7)
-        add("g3t30", lambda: E.SlidingTilePuzzle(generator=G(grid_size=3, num_random_moves=6), time_limit=30), 34, time_limit=30)
-        add("g2t3", lambda: E.SlidingTilePuzzle(generator=G(grid_size=2, num_random_moves=3), time_limit=3), 6, time_limit=3)
-        add("g3dense-t2", lambda: E.SlidingTilePuzzle(generator=G(grid_size=3, num_random_moves=4), reward_fn=R.DenseRewardFn(), time_limit=2), 5, time_limit=2)
-        add("g4t1", lambda: E.SlidingTilePuzzle(generator=G(grid_size=4, num_random_moves=20), time_limit=1), 4, time_limit=1)
+        add("default-t7", lambda: E.SlidingTilePuzzle(time_limit=7), 10, time_limit=7, mk=lambda t: E.SlidingTilePuzzle(time_limit=t))
+        add("g3t30", lambda: E.SlidingTilePuzzle(generator=G(grid_size=3, num_random_moves=6), time_limit=30), 34, time_limit=30, mk=lambda t: E.SlidingTilePuzzle(generator=G(grid_size=3, num_random_moves=6), time_limit=t))
+        add("g2t3", lambda: E.SlidingTilePuzzle(generator=G(grid_size=2, num_random_moves=3), time_limit=3), 6, time_limit=3, mk=lambda t: E.SlidingTilePuzzle(generator=G(grid_size=2, num_random_moves=3), time_limit=t))
+        add("g3dense-t2", lambda: E.SlidingTilePuzzle(generator=G(grid_size=3, num_random_moves=4), reward_fn=R.DenseRewardFn(), time_limit=2), 5, time_limit=2, mk=lambda t: E.SlidingTilePuzzle(generator=G(grid_size=3, num_random_moves=4), reward_fn=R.DenseRewardFn(), time_limit=t))
+        add("g4t1", lambda: E.SlidingTilePuzzle(generator=G(grid_size=4, num_random_moves=20), time_limit=1), 4, time_limit=1, mk=lambda t: E.SlidingTilePuzzle(generator=G(grid_size=4, num_random_moves=20), time_limit=t))
         if not q:
-            add("g5improved", lambda: E.SlidingTilePuzzle(reward_fn=R.ImprovedDenseRewardFn(), time_limit=60), 64, time_limit=60)
-            add("default", lambda: E.SlidingTilePuzzle(), 505, time_limit=500, batch=2)
+            add("g5improved", lambda: E.SlidingTilePuzzle(reward_fn=R.ImprovedDenseRewardFn(), time_limit=60), 64, time_limit=60, mk=lambda t: E.SlidingTilePuzzle(reward_fn=R.ImprovedDenseRewardFn(), time_limit=t))
+            add("default", lambda: E.SlidingTilePuzzle(), 505, time_limit=500, batch=2, mk=lambda t: E.SlidingTilePuzzle(time_limit=t))
     elif env == "sudoku":
         add("default", lambda: E.Sudoku(), 30)
         import jumanji
@@ -91,26 +91,26 @@ def catalog(env, tier):
         add("n5b2sparse", lambda: E.Knapsack(generator=G.RandomGenerator(num_items=5, total_budget=2), reward_fn=R.SparseReward()), 8)
         add("n10b1", lambda: E.Knapsack(generator=G.RandomGenerator(num_items=10, total_budget=1.5)), 12)
     elif env == "tetris":
-        add("default-t30", lambda: E.Tetris(time_limit=30), 34, time_limit=30)
-        add("r6c5t7", lambda: E.Tetris(num_rows=6, num_cols=5, time_limit=7), 10, time_limit=7)
-        add("r5c8t2", lambda: E.Tetris(num_rows=5, num_cols=8, time_limit=2), 5, time_limit=2)
-        add("r4c4t1", lambda: E.Tetris(num_rows=4, num_cols=4, time_limit=1), 4, time_limit=1)
+        add("default-t30", lambda: E.Tetris(time_limit=30), 34, time_limit=30, mk=lambda t: E.Tetris(time_limit=t))
+        add("r6c5t7", lambda: E.Tetris(num_rows=6, num_cols=5, time_limit=7), 10, time_limit=7, mk=lambda t: E.Tetris(num_rows=6, num_cols=5, time_limit=t))
+        add("r5c8t2", lambda: E.Tetris(num_rows=5, num_cols=8, time_limit=2), 5, time_limit=2, mk=lambda t: E.Tetris(num_rows=5, num_cols=8, time_limit=t))
+        add("r4c4t1", lambda: E.Tetris(num_rows=4, num_cols=4, time_limit=1), 4, time_limit=1, mk=lambda t: E.Tetris(num_rows=4, num_cols=4, time_limit=t))
         if not q:
-            add("default", lambda: E.Tetris(), 405, time_limit=400, batch=4)
+            add("default", lambda: E.Tetris(), 405, time_limit=400, batch=4, mk=lambda t: E.Tetris(time_limit=t))
     elif env == "cleaner":
         from jumanji.environments.routing.cleaner.generator import RandomGenerator as G
-        add("default-t20", lambda: E.Cleaner(time_limit=20), 24, time_limit=20)
-        add("r5c11a2", lambda: E.Cleaner(generator=G(num_rows=5, num_cols=11, num_agents=2), time_limit=15), 18, time_limit=15)
-        add("r9c4a1-none", lambda: E.Cleaner(generator=G(num_rows=9, num_cols=4, num_agents=1)), 40, time_limit=36)
-        add("r3c3a2t1", lambda: E.Cleaner(generator=G(num_rows=3, num_cols=3, num_agents=2), time_limit=1), 4, time_limit=1)
+        add("default-t20", lambda: E.Cleaner(time_limit=20), 24, time_limit=20, mk=lambda t: E.Cleaner(time_limit=t))
+        add("r5c11a2", lambda: E.Cleaner(generator=G(num_rows=5, num_cols=11, num_agents=2), time_limit=15), 18, time_limit=15, mk=lambda t: E.Cleaner(generator=G(num_rows=5, num_cols=11, num_agents=2), time_limit=t))
+        add("r9c4a1-none", lambda: E.Cleaner(generator=G(num_rows=9, num_cols=4, num_agents=1)), 40, time_limit=36, mk=lambda t: E.Cleaner(generator=G(num_rows=9, num_cols=4, num_agents=1), time_limit=t))
+        add("r3c3a2t1", lambda: E.Cleaner(generator=G(num_rows=3, num_cols=3, num_agents=2), time_limit=1), 4, time_limit=1, mk=lambda t: E.Cleaner(generator=G(num_rows=3, num_cols=3, num_agents=2), time_limit=t))
     elif env == "connector":
         from jumanji.environments.routing.connector import generator as G
-        add("default-t12", lambda: E.Connector(time_limit=12), 15, time_limit=12)
-        add("g6a3t7", lambda: E.Connector(generator=G.RandomWalkGenerator(grid_size=6, num_agents=3), time_limit=7), 10, time_limit=7)
-        add("g5a2uni-t3", lambda: E.Connector(generator=G.UniformRandomGenerator(grid_size=5, num_agents=2), time_limit=3), 6, time_limit=3)
-        add("g4a1t1", lambda: E.Connector(generator=G.RandomWalkGenerator(grid_size=4, num_agents=1), time_limit=1), 4, time_limit=1)
+        add("default-t12", lambda: E.Connector(time_limit=12), 15, time_limit=12, mk=lambda t: E.Connector(time_limit=t))
+        add("g6a3t7", lambda: E.Connector(generator=G.RandomWalkGenerator(grid_size=6, num_agents=3), time_limit=7), 10, time_limit=7, mk=lambda t: E.Connector(generator=G.RandomWalkGenerator(grid_size=6, num_agents=3), time_limit=t))
+        add("g5a2uni-t3", lambda: E.Connector(generator=G.UniformRandomGenerator(grid_size=5, num_agents=2), time_limit=3), 6, time_limit=3, mk=lambda t: E.Connector(generator=G.UniformRandomGenerator(grid_size=5, num_agents=2), time_limit=t))
+        add("g4a1t1", lambda: E.Connector(generator=G.RandomWalkGenerator(grid_size=4, num_agents=1), time_limit=1), 4, time_limit=1, mk=lambda t: E.Connector(generator=G.RandomWalkGenerator(grid_size=4, num_agents=1), time_limit=t))
         if not q:
-            add("default", lambda: E.Connector(), 54, time_limit=50)
+            add("default", lambda: E.Connector(), 54, time_limit=50, mk=lambda t: E.Connector(time_limit=t))
     elif env == "cvrp":
         from jumanji.environments.routing.cvrp import generator as G, reward as R
         add("default", lambda: E.CVRP(), 45)
@@ -118,47 +118,47 @@ def catalog(env, tier):
         add("n3", lambda: E.CVRP(generator=G.UniformGenerator(num_nodes=3, max_capacity=3, max_demand=3)), 9)
     elif env == "lbf":
         from jumanji.environments.routing.lbf.generator import RandomGenerator as G
-        add("default-t15", lambda: E.LevelBasedForaging(time_limit=15), 18, time_limit=15)
-        add("g7a3f2fov1-grid-t7", lambda: E.LevelBasedForaging(generator=G(grid_size=7, fov=1, num_agents=3, num_food=2), time_limit=7, grid_observation=True), 10, time_limit=7)
-        add("g6a2f2-nonorm-pen-t3", lambda: E.LevelBasedForaging(generator=G(grid_size=6, fov=6, num_agents=2, num_food=2, force_coop=True), time_limit=3, normalize_reward=False, penalty=0.5), 6, time_limit=3)
-        add("g8a4f4fov2-t1", lambda: E.LevelBasedForaging(generator=G(grid_size=8, fov=2, num_agents=4, num_food=4), time_limit=1), 4, time_limit=1)
+        add("default-t15", lambda: E.LevelBasedForaging(time_limit=15), 18, time_limit=15, mk=lambda t: E.LevelBasedForaging(time_limit=t))
+        add("g7a3f2fov1-grid-t7", lambda: E.LevelBasedForaging(generator=G(grid_size=7, fov=1, num_agents=3, num_food=2), time_limit=7, grid_observation=True), 10, time_limit=7, mk=lambda t: E.LevelBasedForaging(generator=G(grid_size=7, fov=1, num_agents=3, num_food=2), time_limit=t, grid_observation=True))
+        add("g6a2f2-nonorm-pen-t3", lambda: E.LevelBasedForaging(generator=G(grid_size=6, fov=6, num_agents=2, num_food=2, force_coop=True), time_limit=3, normalize_reward=False, penalty=0.5), 6, time_limit=3, mk=lambda t: E.LevelBasedForaging(generator=G(grid_size=6, fov=6, num_agents=2, num_food=2, force_coop=True), time_limit=t, normalize_reward=False, penalty=0.5))
+        add("g8a4f4fov2-t1", lambda: E.LevelBasedForaging(generator=G(grid_size=8, fov=2, num_agents=4, num_food=4), time_limit=1), 4, time_limit=1, mk=lambda t: E.LevelBasedForaging(generator=G(grid_size=8, fov=2, num_agents=4, num_food=4), time_limit=t))
     elif env == "maze":
         from jumanji.environments.routing.maze.generator import RandomGenerator as G
-        add("default-t20", lambda: E.Maze(time_limit=20), 24, time_limit=20)
-        add("r5c9t7", lambda: E.Maze(generator=G(num_rows=5, num_cols=9), time_limit=7), 10, time_limit=7)
-        add("r6c3none", lambda: E.Maze(generator=G(num_rows=6, num_cols=3)), 22, time_limit=18)
-        add("r4c4t1", lambda: E.Maze(generator=G(num_rows=4, num_cols=4), time_limit=1), 4, time_limit=1)
+        add("default-t20", lambda: E.Maze(time_limit=20), 24, time_limit=20, mk=lambda t: E.Maze(time_limit=t))
+        add("r5c9t7", lambda: E.Maze(generator=G(num_rows=5, num_cols=9), time_limit=7), 10, time_limit=7, mk=lambda t: E.Maze(generator=G(num_rows=5, num_cols=9), time_limit=t))
+        add("r6c3none", lambda: E.Maze(generator=G(num_rows=6, num_cols=3)), 22, time_limit=18, mk=lambda t: E.Maze(generator=G(num_rows=6, num_cols=3), time_limit=t))
+        add("r4c4t1", lambda: E.Maze(generator=G(num_rows=4, num_cols=4), time_limit=1), 4, time_limit=1, mk=lambda t: E.Maze(generator=G(num_rows=4, num_cols=4), time_limit=t))
     elif env == "mmst":
         from jumanji.environments.routing.mmst import generator as G
-        add("default-t12", lambda: E.MMST(time_limit=12), 15, time_limit=12)
-        add("n12a2t7", lambda: E.MMST(generator=G.SplitRandomGenerator(num_nodes=12, num_edges=18, max_degree=5, num_agents=2, num_nodes_per_agent=3, max_step=7), time_limit=7), 10, time_limit=7)
-        add("n12a2t1", lambda: E.MMST(generator=G.SplitRandomGenerator(num_nodes=12, num_edges=18, max_degree=5, num_agents=2, num_nodes_per_agent=3, max_step=1), time_limit=1), 4, time_limit=1)
+        add("default-t12", lambda: E.MMST(time_limit=12), 15, time_limit=12, mk=lambda t: E.MMST(time_limit=t))
+        add("n12a2t7", lambda: E.MMST(generator=G.SplitRandomGenerator(num_nodes=12, num_edges=18, max_degree=5, num_agents=2, num_nodes_per_agent=3, max_step=7), time_limit=7), 10, time_limit=7, mk=lambda t: E.MMST(generator=G.SplitRandomGenerator(num_nodes=12, num_edges=18, max_degree=5, num_agents=2, num_nodes_per_agent=3, max_step=7), time_limit=t))
+        add("n12a2t1", lambda: E.MMST(generator=G.SplitRandomGenerator(num_nodes=12, num_edges=18, max_degree=5, num_agents=2, num_nodes_per_agent=3, max_step=1), time_limit=1), 4, time_limit=1, mk=lambda t: E.MMST(generator=G.SplitRandomGenerator(num_nodes=12, num_edges=18, max_degree=5, num_agents=2, num_nodes_per_agent=3, max_step=1), time_limit=t))
     elif env == "multi_cvrp":
         from jumanji.environments.routing.multi_cvrp import generator as G
         add("default", lambda: E.MultiCVRP(), 45)
         add("v3c6", lambda: E.MultiCVRP(generator=G.UniformRandomGenerator(num_vehicles=3, num_customers=6)), 16)
     elif env == "pac_man":
         add("default", lambda: E.PacMan(), 60)
-        add("t7", lambda: E.PacMan(time_limit=7), 10, time_limit=7)
-        add("t1", lambda: E.PacMan(time_limit=1), 4, time_limit=1)
+        add("t7", lambda: E.PacMan(time_limit=7), 10, time_limit=7, mk=lambda t: E.PacMan(time_limit=t))
+        add("t1", lambda: E.PacMan(time_limit=1), 4, time_limit=1, mk=lambda t: E.PacMan(time_limit=t))
     elif env == "robot_warehouse":
         from jumanji.environments.routing.robot_warehouse.generator import RandomGenerator as G
-        add("default-t15", lambda: E.RobotWarehouse(time_limit=15), 18, time_limit=15)
-        add("small-t7", lambda: E.RobotWarehouse(generator=G(shelf_rows=1, shelf_columns=3, column_height=4, num_agents=2, sensor_range=2, request_queue_size=2), time_limit=7), 10, time_limit=7)
-        add("small-t1", lambda: E.RobotWarehouse(generator=G(shelf_rows=2, shelf_columns=1, column_height=2, num_agents=3, sensor_range=1, request_queue_size=3), time_limit=1), 4, time_limit=1)
+        add("default-t15", lambda: E.RobotWarehouse(time_limit=15), 18, time_limit=15, mk=lambda t: E.RobotWarehouse(time_limit=t))
+        add("small-t7", lambda: E.RobotWarehouse(generator=G(shelf_rows=1, shelf_columns=3, column_height=4, num_agents=2, sensor_range=2, request_queue_size=2), time_limit=7), 10, time_limit=7, mk=lambda t: E.RobotWarehouse(generator=G(shelf_rows=1, shelf_columns=3, column_height=4, num_agents=2, sensor_range=2, request_queue_size=2), time_limit=t))
+        add("small-t1", lambda: E.RobotWarehouse(generator=G(shelf_rows=2, shelf_columns=1, column_height=2, num_agents=3, sensor_range=1, request_queue_size=3), time_limit=1), 4, time_limit=1, mk=lambda t: E.RobotWarehouse(generator=G(shelf_rows=2, shelf_columns=1, column_height=2, num_agents=3, sensor_range=1, request_queue_size=3), time_limit=t))
     elif env == "snake":
-        add("default-t30", lambda: E.Snake(time_limit=30), 34, time_limit=30)
-        add("r6c6t3", lambda: E.Snake(num_rows=6, num_cols=6, time_limit=3), 6, time_limit=3)
-        add("r4c7t7", lambda: E.Snake(num_rows=4, num_cols=7, time_limit=7), 10, time_limit=7)
-        add("r3c3t1", lambda: E.Snake(num_rows=3, num_cols=3, time_limit=1), 4, time_limit=1)
+        add("default-t30", lambda: E.Snake(time_limit=30), 34, time_limit=30, mk=lambda t: E.Snake(time_limit=t))
+        add("r6c6t3", lambda: E.Snake(num_rows=6, num_cols=6, time_limit=3), 6, time_limit=3, mk=lambda t: E.Snake(num_rows=6, num_cols=6, time_limit=t))
+        add("r4c7t7", lambda: E.Snake(num_rows=4, num_cols=7, time_limit=7), 10, time_limit=7, mk=lambda t: E.Snake(num_rows=4, num_cols=7, time_limit=t))
+        add("r3c3t1", lambda: E.Snake(num_rows=3, num_cols=3, time_limit=1), 4, time_limit=1, mk=lambda t: E.Snake(num_rows=3, num_cols=3, time_limit=t))
         if not q:
-            add("r5c5t400", lambda: E.Snake(num_rows=5, num_cols=5, time_limit=400), 120, time_limit=400)
+            add("r5c5t400", lambda: E.Snake(num_rows=5, num_cols=5, time_limit=400), 120, time_limit=400, mk=lambda t: E.Snake(num_rows=5, num_cols=5, time_limit=t))
     elif env == "sokoban":
         import jax
         from jumanji.environments.routing.sokoban import generator as G
-        add("toy-t12", lambda: E.Sokoban(generator=G.ToyGenerator(), time_limit=12), 15, time_limit=12)
-        add("simple-t7", lambda: E.Sokoban(generator=G.SimpleSolveGenerator(), time_limit=7), 10, time_limit=7)
-        add("toy-t1", lambda: E.Sokoban(generator=G.ToyGenerator(), time_limit=1), 4, time_limit=1)
+        add("toy-t12", lambda: E.Sokoban(generator=G.ToyGenerator(), time_limit=12), 15, time_limit=12, mk=lambda t: E.Sokoban(generator=G.ToyGenerator(), time_limit=t))
+        add("simple-t7", lambda: E.Sokoban(generator=G.SimpleSolveGenerator(), time_limit=7), 10, time_limit=7, mk=lambda t: E.Sokoban(generator=G.SimpleSolveGenerator(), time_limit=t))
+        add("toy-t1", lambda: E.Sokoban(generator=G.ToyGenerator(), time_limit=1), 4, time_limit=1, mk=lambda t: E.Sokoban(generator=G.ToyGenerator(), time_limit=t))
     elif env == "tsp":
         from jumanji.environments.routing.tsp import generator as G, reward as R
         add("default", lambda: E.TSP(), 24)
